@@ -44,6 +44,11 @@ Print Assumptions C06_is_locked_wait.
 Theorem C06_is_locked_wait_total : forall fuel c w s, 0 < s -> sleeps w s < Z.of_nat fuel -> is_locked_wait fuel c w s <> None.
 Proof. exact is_locked_wait_total. Qed.
 Print Assumptions C06_is_locked_wait_total.
+(* ... and it is the conjunction of what the polls Probe, Tick step, Probe, ... of the event language see *)
+Theorem C06_is_locked_wait_polls : forall fuel c w s b, 0 < s ->
+  is_locked_wait fuel c w s = Some b -> b = forallb (fun x => x) (polls c s (Z.to_nat (sleeps w s))).
+Proof. exact is_locked_wait_polls. Qed.
+Print Assumptions C06_is_locked_wait_polls.
 Example C06_is_locked_wait_example :
   let c := run [Try 0 16] in (is_locked_wait 9 c 8 6, is_locked_wait 9 c 20 6, is_locked_wait 9 c 20 4, sleeps 20 6) = (Some true, Some false, Some false, 4).
 Proof. vm_compute. reflexivity. Qed.
